@@ -419,6 +419,19 @@ Fixpoint ntags_ok (cnt : N) (sk : peer -> option N) (l : list (uev * N)) : bool 
 
 Definition flag (b : bool) (f : N) : N := if b then 0 else f.
 
+(* clause 5 for one peer of an open command *)
+Definition ans_ok (pre post : pobs) (p : peer) (ev : list uev) (calls : list call) : bool :=
+  if o_hopen pre then true else
+  match o_ps pre with
+  | None => has_fail p ev || existsb (fun cl => match cl with CDial q => q =? p | _ => false end) calls
+  | Some (Closed _) => has_fail p ev || in_progress (o_ps post)
+  | Some (VPending _) => has_fail p ev
+  (* the handle lets the request through although the protocol tracks a stream as open: the user was told
+     Closed for a stream that is not closed; the request (connected peer, nothing in progress) is owed an answer *)
+  | Some (Open _) => has_fail p ev || has_opened p ev
+  | _ => true
+  end.
+
 Definition check_step (c : cfg) (m : omem) (o : op) (x : sobs) : omem * N :=
   let p := op_peer o in
   let pre := nth_p (m_prev m) p in
@@ -461,21 +474,7 @@ Definition check_step (c : cfg) (m : omem) (o : op) (x : sobs) : omem * N :=
      (open_substream returns PeerAlreadyExists: o_hopen); a negotiation, a dial or a stream is already
      in progress (every other peer state: the command is ignored and the outcome of what is in
      progress is the answer). A peer that is not connected is dialed first (CDial) or refused. *)
-  let ans :=
-    match o with
-    | CmdOpen _ =>
-        if o_hopen pre then true else
-        match o_ps pre with
-        | None => has_fail p (o_ev x) || existsb (fun cl => match cl with CDial _ => true | _ => false end) (o_calls x)
-        | Some (Closed _) => has_fail p (o_ev x) || in_progress (o_ps post)
-        | Some (VPending _) => has_fail p (o_ev x)
-        (* the handle lets the request through although the protocol tracks a stream as open: the user was told
-           Closed for a stream that is not closed; the request (connected peer, nothing in progress) is owed an answer *)
-        | Some (Open _) => has_fail p (o_ev x) || has_opened p (o_ev x)
-        | _ => true
-        end
-    | _ => true
-    end in
+  let ans := match o with CmdOpen _ => ans_ok pre post p (o_ev x) (o_calls x) | _ => true end in
   (* 6. "... answered by exactly one of opened or open-failure": whoever gives up an outbound
      substream the user asked for (or agreed to) says so: in progress -> still in progress, or Open with
      NotificationStreamOpened, or NotificationStreamOpenFailure. The one exception in the code is the
@@ -520,17 +519,23 @@ Definition check_step (c : cfg) (m : omem) (o : op) (x : sobs) : omem * N :=
 
 (* a SleepAll step is a batch of timer events for several peers, a batch command one of user commands for
    several peers: only the event grammar and the bookkeeping of the oracle are applied to them *)
-Definition check_batch (m : omem) (x : sobs) : omem * N :=
+Definition check_batch (m : omem) (g : gop) (x : sobs) : omem * N :=
   let '(opened', fg) := grammar (m_opened m) (o_ev x) in
+  (* every peer of an open_substream_batch is answered like a single open request *)
+  let ansb :=
+    match g with
+    | GBatch true l => forallb (fun q => ans_ok (nth_p (m_prev m) q) (nth_p (o_peers x) q) q (o_ev x) (o_calls x)) l
+    | _ => true
+    end in
   let '(cnt', sink') := sinks (m_cnt m) (m_sink m) (o_ev x) in
   let req := m_req m ++ flat_map (fun cl => match cl with COpen q y => [(y, q)] | _ => [] end) (o_calls x) in
   (mkOmem (o_peers x) opened' req cnt' sink' (m_usink m),
-   N.lor fg (flag (ntags_ok (m_cnt m) (m_sink m) (o_evt x)) F_GEN)).
+   N.lor fg (flag (ntags_ok (m_cnt m) (m_sink m) (o_evt x) && ansb) F_GEN)).
 
 Fixpoint check_steps (c : cfg) (m : omem) (ops : list gop) (tr : list sobs) : N :=
   match ops, tr with
   | g :: ops', x :: tr' =>
-      let '(m', f) := match g with GOp o => check_step c m o x | GSleepAll | GBatch _ _ => check_batch m x end in
+      let '(m', f) := match g with GOp o => check_step c m o x | GSleepAll | GBatch _ _ => check_batch m g x end in
       N.lor f (check_steps c m' ops' tr')
   | _, _ => 0
   end.
